@@ -7,7 +7,7 @@ use crate::loop_el::{ForElement, LoopElement};
 use crate::position::{BoundingBox, BoundingBoxBuilder, LocSpec};
 use crate::reuse::ReuseElement;
 use crate::themes::ThemeBuilder;
-use crate::types::{extract_urlref, fstr, split_unit, AttrMap, OrderIndex};
+use crate::types::{extract_urlref, fstr, split_unit, strp, AttrMap, OrderIndex};
 use crate::TransformConfig;
 
 use std::collections::{BTreeMap, HashMap, HashSet};
@@ -126,7 +126,20 @@ impl EventGen for Container {
                     break;
                 }
             }
-            if let (true, Some(text)) = (self.0.is_graphics_element(), &inner_text) {
+            // Standard SVG allows `x` / `y` of a text element to be coordinate lists or
+            // lengths with units; such an element has no computable anchor so it can't
+            // be re-generated from a `text` attribute, and is passed through as it is.
+            let plain_svg_text = self.0.name == "text"
+                && ["x", "y"].iter().any(|a| {
+                    self.0.get_attr(a).is_some_and(|v| {
+                        strp(&v).is_err() && !v.contains(['$', '#', '^', '{'])
+                    })
+                });
+            if let (true, false, Some(text)) = (
+                self.0.is_graphics_element(),
+                plain_svg_text,
+                &inner_text,
+            ) {
                 let mut el = self.0.clone();
                 el.set_attr("text", text);
                 if let Some((start, _end)) = self.0.event_range {
